@@ -263,3 +263,11 @@ def run(ctx: Ctx, rep: Report, tier: str):
                       "the entry stays in the pending set and is picked again and again without progress" % (type(n.ast).__name__.lower(), sorted(facts)))
     if k13 < 4:
         raise AnalysisError("SyncManager.sync: only %d early exits found before embrace_change (expected >= 4)" % k13)
+    from rules.common import transfer_success_chain
+    rep.rule("C01.R14", "a content change is finished only when it was transferred (C02.R10): download and upload results are tested, failure punts", 2)
+    transfer_success_chain(ctx, rep, "C01.R14")
+    from rules.common import definition_holds
+    rep.rule("C01.R15", "the definition of 'needs sync' (what keeps an entry pending, hence when the engine goes quiet): forced, or changed with an id and (content differs "
+             "from last sync, or path differs, or the side is gone)", 2)
+    definition_holds(ctx, rep, "C01.R15", "SideState.needs_sync", "an entry that differs between the sides can be dropped from the work list (quiet but unequal), or one that does not can stay pending for ever")
+    definition_holds(ctx, rep, "C01.R15", "SyncEntry.needs_sync", "a change on one side is not seen as work")
